@@ -31,14 +31,14 @@ Section WireInd.
   Variable P : wire -> Prop.
   Hypothesis HInt : P WInt.
   Hypothesis HNone : P WNone.
-  Hypothesis HDict : forall kvs, Forall (fun kx => P (snd kx)) kvs -> P (WDict kvs).
+  Hypothesis HDict : forall tg kvs, Forall (fun kx => P (snd kx)) kvs -> P (WDict tg kvs).
   Hypothesis HList : forall l, Forall P l -> P (WList l).
   Fixpoint wire_ind' (w: wire) : P w :=
     match w with
     | WInt => HInt
     | WNone => HNone
-    | WDict kvs =>
-        HDict kvs
+    | WDict tg kvs =>
+        HDict tg kvs
           ((fix go (l: list (nat * wire)) : Forall (fun kx => P (snd kx)) l :=
               match l with
               | [] => Forall_nil _
@@ -59,47 +59,53 @@ Section Eqs.
   Definition subs_of (m: mode) (fs: list (nat * val)) : list (nat * sub) :=
     map (fun kx => match kx with (k, x) => (k, pack m x) end) fs.
 
-  Lemma pack_TInt m v pc k : pack m v TInt pc k = ok_ [].
+  Lemma pack_TInt m v pc px k : pack m v TInt pc px k = ok_ [].
   Proof. destruct v; reflexivity. Qed.
-  Lemma pack_TOpt m v t pc k :
-    pack m v (TOpt t) pc k = match v with VNone => ok_ [] | _ => pack m v t pc k end.
+  Lemma pack_TOpt m v t pc px k :
+    pack m v (TOpt t) pc px k = match v with VNone => ok_ [] | _ => pack m v t pc px k end.
   Proof. destruct v; reflexivity. Qed.
-  Lemma pack_TList m v t pc k :
-    pack m v (TList t) pc k = match v with
-                              | VList l => seqM (map (fun x => pack m x t pc k) l)
+  Lemma pack_TList m v t pc px k :
+    pack m v (TList t) pc px k = match v with
+                              | VList l => seqM (map (fun x => pack m x t pc px k) l)
                               | _ => fail_ end.
   Proof. destruct v; reflexivity. Qed.
-  Lemma pack_TDc m cr i j fs c pc k :
-    pack m (VInst cr i j fs) (TDc c) pc k =
+  Lemma pack_TDc m cr i j fs c pc px k :
+    pack m (VInst cr i j fs) (TDc c) pc px k =
     match m with
-    | Mixin => call_mixin E stubs (pc && c_ctx (cls E c)) k cr i j (subs_of m fs)
+    | Mixin => call_mixin E stubs (pc && c_ctx (cls E c)) (xf_and px (c_xf (cls E c))) k cr i j (subs_of m fs)
     | Codec => call_codec E stubs c cr i j (subs_of m fs) end.
   Proof. reflexivity. Qed.
-  Lemma pack_TUnion m cr i j fs cs pc k :
-    pack m (VInst cr i j fs) (TUnion cs) pc k =
+  Lemma pack_TDisc m v p wf sup pc px k : pack m v (TDisc p wf sup) pc px k = pack m v (TDc p) pc px k.
+  Proof. destruct v; reflexivity. Qed.
+  Lemma pack_TUnion m cr i j fs cs pc px k :
+    pack m (VInst cr i j fs) (TUnion cs) pc px k =
     match m with
-    | Mixin => try_each (map (fun pass => call_mixin E stubs pass k cr i j (subs_of m fs))
-                             (dedup_bool (map (fun c => pc && c_ctx (cls E c)) cs) false false))
+    | Mixin => try_each (map (fun a => call_mixin E stubs (fst a) (snd a) k cr i j (subs_of m fs))
+                             (dedup_pf (map (fun c => (pc && c_ctx (cls E c), xf_and px (c_xf (cls E c)))) cs) []))
     | Codec => try_each (map (fun c => call_codec E stubs c cr i j (subs_of m fs)) (dedup_nat cs []))
     end.
   Proof. reflexivity. Qed.
 
+  Variable allow : bool.
+  Notation wt := (wt E allow).
   Definition wsubs_of (fs: list (nat * val)) : list (nat * subw) :=
-    map (fun kx => match kx with (k, x) => (k, wt E x) end) fs.
+    map (fun kx => match kx with (k, x) => (k, wt x) end) fs.
   Definition inst_ok (c cr i j: nat) (fs: list (nat * val)) : bool :=
-    (cr =? c) && nodupb (map fst fs) && (c_pre (cls E cr) || (i =? j))
+    class_ok E allow cr c && nodupb (map fst fs) && (c_pre (cls E cr) || (i =? j))
     && all_fields (wsubs_of fs) (c_fields (cls E cr)).
 
-  Lemma wt_TInt v : wt E v TInt = match v with VInt => true | _ => false end.
+  Lemma wt_TInt v : wt v TInt = match v with VInt => true | _ => false end.
   Proof. destruct v; reflexivity. Qed.
-  Lemma wt_TOpt v t : wt E v (TOpt t) = match v with VNone => true | _ => wt E v t end.
+  Lemma wt_TOpt v t : wt v (TOpt t) = match v with VNone => true | _ => wt v t end.
   Proof. destruct v; reflexivity. Qed.
-  Lemma wt_TList v t : wt E v (TList t) = match v with VList l => forallb (fun x => wt E x t) l | _ => false end.
+  Lemma wt_TList v t : wt v (TList t) = match v with VList l => forallb (fun x => wt x t) l | _ => false end.
   Proof. destruct v; reflexivity. Qed.
-  Lemma wt_TDc v c : wt E v (TDc c) = match v with VInst cr i j fs => inst_ok c cr i j fs | _ => false end.
+  Lemma wt_TDc v c : wt v (TDc c) = match v with VInst cr i j fs => inst_ok c cr i j fs | _ => false end.
+  Proof. destruct v; reflexivity. Qed.
+  Lemma wt_TDisc v p wf sup : wt v (TDisc p wf sup) = wt v (TDc p).
   Proof. destruct v; reflexivity. Qed.
   Lemma wt_TUnion v cs :
-    wt E v (TUnion cs) = match v with
+    wt v (TUnion cs) = match v with
                          | VInst cr i j fs => existsb (Nat.eqb cr) cs && inst_ok cr cr i j fs
                          | _ => false end.
   Proof. destruct v; reflexivity. Qed.
@@ -127,15 +133,52 @@ Proof.
     + apply IH; assumption.
 Qed.
 
-Lemma env_fields_forall (p: ty -> bool) (E: env) c :
-  forallb (fun C => forallb (fun f => p (f_ty f)) (c_fields C)) E = true ->
-  forallb (fun f => p (f_ty f)) (c_fields (cls E c)) = true.
+Lemma env_uf_both E c : env_union_free E = true ->
+  forallb (fun f => union_free (f_ty f)) (c_fields (cls E c)) = true /\ disc_det (cls E c) = true.
 Proof.
   intros H. unfold cls.
   destruct (nth_in_or_default c E empty_class) as [Hin|Hd].
-  - rewrite forallb_forall in H. apply H. assumption.
-  - rewrite Hd. reflexivity.
+  - unfold env_union_free in H. rewrite forallb_forall in H. specialize (H _ Hin).
+    apply andb_true_iff in H. exact H.
+  - rewrite Hd. split; reflexivity.
 Qed.
+Lemma env_uf_fields E c : env_union_free E = true ->
+  forallb (fun f => union_free (f_ty f)) (c_fields (cls E c)) = true.
+Proof. intros H. apply (env_uf_both E c H). Qed.
+Lemma env_uf_disc E c : env_union_free E = true -> disc_det (cls E c) = true.
+Proof. intros H. apply (env_uf_both E c H). Qed.
+
+Lemma xf_eqb_eq a b : xf_eqb a b = true -> a = b.
+Proof.
+  destruct a as [[a1 a2] a3], b as [[b1 b2] b3]. simpl. intros H.
+  apply andb_true_iff in H as [H H3]. apply andb_true_iff in H as [H1 H2].
+  apply eqb_prop in H1, H2, H3. subst. reflexivity.
+Qed.
+Lemma xf_le_and a b : xf_le (xf_and a b) b = true.
+Proof. destruct a as [[a1 a2] a3], b as [[b1 b2] b3]. destruct a1, a2, a3, b1, b2, b3; reflexivity. Qed.
+Lemma pf_eqb_eq a b : pf_eqb a b = true -> a = b.
+Proof.
+  destruct a as [a1 a2], b as [b1 b2]. unfold pf_eqb. simpl. intros H. apply andb_true_iff in H as [H1 H2].
+  apply eqb_prop in H1. apply xf_eqb_eq in H2. subst. reflexivity.
+Qed.
+Lemma pf_eqb_refl a : pf_eqb a a = true.
+Proof. destruct a as [a1 [[x1 x2] x3]]. unfold pf_eqb. simpl. destruct a1, x1, x2, x3; reflexivity. Qed.
+
+Lemma dedup_pf_in (x: pf) : forall l seen, In x l -> In x (dedup_pf l seen) \/ existsb (pf_eqb x) seen = true.
+Proof.
+  induction l as [|a r IH]; intros seen Hin; [contradiction|]. simpl.
+  destruct Hin as [Heq|Hin].
+  - subst a. destruct (existsb (pf_eqb x) seen) eqn:Ex; [right; reflexivity|left; left; reflexivity].
+  - destruct (existsb (pf_eqb a) seen) eqn:Ea.
+    + apply IH. assumption.
+    + destruct (IH (a :: seen) Hin) as [H|H].
+      * left. right. assumption.
+      * simpl in H. apply orb_true_iff in H as [H|H].
+        -- apply pf_eqb_eq in H. subst a. left. left. reflexivity.
+        -- right. assumption.
+Qed.
+
+Definition is_mixin (m: mode) : bool := match m with Mixin => true | Codec => false end.
 
 Lemma if_same {A} (b: bool) (x: A) : (if b then x else x) = x.
 Proof. destruct b; reflexivity. Qed.
@@ -152,18 +195,18 @@ Section Trace.
   Definition kcond (m: mode) (k: ctxtok) : Prop := m = Codec -> k = CNone.
 
   Definition good (m: mode) (x: val) : Prop :=
-    forall t pc k, union_free t = true -> wt E x t = true -> kcond m k ->
-                   pack E stubs m x t pc k = (true, trav E pc k x).
+    forall t pc px k, union_free t = true -> wt E (is_mixin m) x t = true -> kcond m k ->
+                   pack E stubs m x t pc px k = (true, trav E pc k x).
 
-  Lemma fields_trace m (full: list (nat * sub)) pcc ck :
+  Lemma fields_trace m (full: list (nat * sub)) pcc pxx ck :
     forall (fs: list (nat * val)) (fl: list field),
       (forall k x, In (k, x) fs -> assoc k full = Some (pack E stubs m x)) ->
-      all_fields (wsubs_of E fs) fl = true ->
+      all_fields (wsubs_of E (is_mixin m) fs) fl = true ->
       Forall (fun kx => good m (snd kx)) fs ->
       forallb (fun f => union_free (f_ty f)) fl = true ->
       kcond m ck ->
       seqM (map (fun f => match assoc (f_name f) full with
-                          | Some s => s (f_ty f) pcc ck
+                          | Some s => s (f_ty f) pcc pxx ck
                           | None => fail_ end) fl)
       = (true, flat_map (fun kx => match kx with (_, x) => trav E pcc ck x end) fs).
   Proof.
@@ -175,25 +218,25 @@ Section Trace.
       simpl in Huf. apply andb_true_iff in Huf as [Huf1 Huf2].
       inversion Hg as [|? ? Hgx Hgr]; subst.
       simpl map. rewrite (Hfull (f_name f) x (or_introl eq_refl)).
-      simpl seqM. simpl in Hgx. rewrite (Hgx (f_ty f) pcc ck Huf1 Hwt Hk).
+      simpl seqM. simpl in Hgx. rewrite (Hgx (f_ty f) pcc pxx ck Huf1 Hwt Hk).
       rewrite seq2_ok.
       rewrite (IH fl'); auto.
       intros k0 x0 Hin. apply Hfull. right. assumption.
   Qed.
 
-  Lemma list_trace m t pc k :
-    forall l, Forall (good m) l -> union_free t = true -> forallb (fun x => wt E x t) l = true -> kcond m k ->
-      seqM (map (fun x => pack E stubs m x t pc k) l) = (true, flat_map (trav E pc k) l).
+  Lemma list_trace m t pc px k :
+    forall l, Forall (good m) l -> union_free t = true -> forallb (fun x => wt E (is_mixin m) x t) l = true -> kcond m k ->
+      seqM (map (fun x => pack E stubs m x t pc px k) l) = (true, flat_map (trav E pc k) l).
   Proof.
     induction l as [|x r IH]; intros Hg Hu Hw Hk; [reflexivity|].
     inversion Hg; subst. simpl in Hw. apply andb_true_iff in Hw as [Hw1 Hw2].
-    simpl. rewrite (H1 t pc k Hu Hw1 Hk). rewrite seq2_ok. rewrite IH; auto.
+    simpl. rewrite (H1 t pc px k Hu Hw1 Hk). rewrite seq2_ok. rewrite IH; auto.
   Qed.
 
   Lemma body_trace m cr i j fs kk ck :
     nodupb (map fst fs) = true ->
     (c_pre (cls E cr) || (i =? j)) = true ->
-    all_fields (wsubs_of E fs) (c_fields (cls E cr)) = true ->
+    all_fields (wsubs_of E (is_mixin m) fs) (c_fields (cls E cr)) = true ->
     Forall (fun kx => good m (snd kx)) fs ->
     kcond m ck ->
     body E stubs cr cr i j (subs_of E stubs m fs) kk ck
@@ -202,60 +245,92 @@ Section Trace.
              ++ (if c_post (cls E cr) then [Post cr j kk] else [])).
   Proof.
     intros Hnd Hij Hall Hg Hk. unfold body. rewrite early_fail_same.
-    rewrite (fields_trace m (subs_of E stubs m fs) (c_ctx (cls E cr)) ck fs (c_fields (cls E cr))); auto.
+    rewrite (fields_trace m (subs_of E stubs m fs) (c_ctx (cls E cr)) (c_xf (cls E cr)) ck fs (c_fields (cls E cr))); auto.
     - assert ((if c_pre (cls E cr) then j else i) = j) as Hj.
       { destruct (c_pre (cls E cr)); [reflexivity|]. simpl in Hij. apply Nat.eqb_eq in Hij. assumption. }
       rewrite Hj.
       destruct (c_pre (cls E cr)), (c_post (cls E cr)); simpl; rewrite ?app_nil_r; reflexivity.
     - intros k x Hin. unfold subs_of. apply assoc_map_nodup; assumption.
-    - apply env_fields_forall with (p := union_free). assumption.
+    - apply env_uf_fields. assumption.
+  Qed.
+
+  Lemma class_ok_ctx a cr c : class_ok E a cr c = true -> c_ctx (cls E c) = c_ctx (cls E cr).
+  Proof.
+    unfold class_ok. intros H. apply orb_true_iff in H as [H|H].
+    - apply Nat.eqb_eq in H. subst. reflexivity.
+    - apply andb_true_iff in H as [_ H]. apply eqb_prop in H. symmetry. exact H.
+  Qed.
+  Lemma class_ok_xf a cr c : class_ok E a cr c = true -> c_xf (cls E c) = c_xf (cls E cr).
+  Proof.
+    unfold class_ok. intros H. apply orb_true_iff in H as [H|H].
+    - apply Nat.eqb_eq in H. subst. reflexivity.
+    - apply andb_true_iff in H as [H _]. apply andb_true_iff in H as [_ H]. apply xf_eqb_eq in H. symmetry. exact H.
+  Qed.
+  Lemma call_ok pc px cr :
+    (pc && c_ctx (cls E cr) && negb (c_ctx (cls E cr))) || negb (xf_le (xf_and px (c_xf (cls E cr))) (c_xf (cls E cr))) = false.
+  Proof. rewrite xf_le_and. destruct pc, (c_ctx (cls E cr)); reflexivity. Qed.
+  Lemma class_ok_exact cr c : class_ok E false cr c = true -> cr = c.
+  Proof.
+    unfold class_ok. intros H. apply orb_true_iff in H as [H|H].
+    - apply Nat.eqb_eq in H. exact H.
+    - discriminate.
+  Qed.
+
+  Lemma inst_trace m c i j fs :
+    Forall (fun kx => good m (snd kx)) fs ->
+    forall c0 pc px k, wt E (is_mixin m) (VInst c i j fs) (TDc c0) = true -> kcond m k ->
+      pack E stubs m (VInst c i j fs) (TDc c0) pc px k = (true, trav E pc k (VInst c i j fs)).
+  Proof.
+    intros H c0 pc px k Hw Hk.
+    rewrite wt_TDc in Hw. unfold inst_ok in Hw.
+    apply andb_true_iff in Hw as [Hw Hall]. apply andb_true_iff in Hw as [Hw Hij].
+    apply andb_true_iff in Hw as [Hc Hnd].
+    rewrite pack_TDc. destruct m.
+    - rewrite (class_ok_ctx _ _ _ Hc), (class_ok_xf _ _ _ Hc). unfold call_mixin.
+      rewrite call_ok. rewrite body_trace; auto.
+      intros Hm; discriminate.
+    - apply class_ok_exact in Hc. subst c0.
+      unfold call_codec. rewrite (Hk eq_refl). rewrite body_trace; auto.
+      + simpl trav. rewrite if_same. reflexivity.
+      + intros _. reflexivity.
   Qed.
 
   Theorem pack_trav m : forall v, good m v.
   Proof.
     induction v using val_ind'; unfold good.
     - (* VInt *)
-      induction t; intros pc k Hu Hw Hk.
+      induction t; intros pc px k Hu Hw Hk.
       + reflexivity.
       + rewrite wt_TDc in Hw; discriminate.
       + rewrite wt_TList in Hw; discriminate.
       + rewrite wt_TOpt in Hw. rewrite pack_TOpt. apply IHt; assumption.
       + discriminate.
+      + rewrite wt_TDisc, wt_TDc in Hw; discriminate.
     - (* VNone *)
-      induction t; intros pc k Hu Hw Hk.
+      induction t; intros pc px k Hu Hw Hk.
       + rewrite wt_TInt in Hw; discriminate.
       + rewrite wt_TDc in Hw; discriminate.
       + rewrite wt_TList in Hw; discriminate.
       + rewrite pack_TOpt. reflexivity.
       + discriminate.
+      + rewrite wt_TDisc, wt_TDc in Hw; discriminate.
     - (* VInst *)
-      induction t; intros pc k Hu Hw Hk.
+      induction t; intros pc px k Hu Hw Hk.
       + rewrite wt_TInt in Hw; discriminate.
-      + (* TDc *)
-        rewrite wt_TDc in Hw. unfold inst_ok in Hw.
-        apply andb_true_iff in Hw as [Hw Hall]. apply andb_true_iff in Hw as [Hw Hij].
-        apply andb_true_iff in Hw as [Hc Hnd]. apply Nat.eqb_eq in Hc. subst c0.
-        rewrite pack_TDc. destruct m.
-        * unfold call_mixin.
-          assert ((pc && c_ctx (cls E c) && negb (c_ctx (cls E c))) = false) as Hf
-              by (destruct pc, (c_ctx (cls E c)); reflexivity).
-          rewrite Hf. rewrite body_trace; auto.
-          intros Hm; discriminate.
-        * unfold call_codec. rewrite (Hk eq_refl). rewrite body_trace; auto.
-          -- simpl trav. rewrite if_same. reflexivity.
-          -- intros _. reflexivity.
+      + apply inst_trace; assumption.
       + rewrite wt_TList in Hw; discriminate.
-      + (* TOpt *)
-        rewrite wt_TOpt in Hw. rewrite pack_TOpt. apply IHt; assumption.
+      + rewrite wt_TOpt in Hw. rewrite pack_TOpt. apply IHt; assumption.
       + discriminate.
+      + rewrite wt_TDisc in Hw. rewrite pack_TDisc. apply inst_trace; assumption.
     - (* VList *)
-      induction t; intros pc k Hu Hw Hk.
+      induction t; intros pc px k Hu Hw Hk.
       + rewrite wt_TInt in Hw; discriminate.
       + rewrite wt_TDc in Hw; discriminate.
       + rewrite wt_TList in Hw. rewrite pack_TList. simpl trav.
         apply list_trace; assumption.
       + rewrite wt_TOpt in Hw. rewrite pack_TOpt. apply IHt; assumption.
       + discriminate.
+      + rewrite wt_TDisc, wt_TDc in Hw; discriminate.
   Qed.
 End Trace.
 
@@ -333,9 +408,9 @@ Section Once.
   Variable stubs : bool.
 
   Definition good1 (x: val) : Prop :=
-    forall t pc k, wt E x t = true ->
-      fst (pack E stubs Mixin x t pc k) = true /\
-      map erase (snd (pack E stubs Mixin x t pc k)) = map erase (trav E pc k x).
+    forall t pc px k, wt E true x t = true ->
+      fst (pack E stubs Mixin x t pc px k) = true /\
+      map erase (snd (pack E stubs Mixin x t pc px k)) = map erase (trav E pc k x).
 
   (* erased reference traversal does not depend on the context parameters *)
   Lemma trav_erase_indep : forall v pc k pc' k', map erase (trav E pc k v) = map erase (trav E pc' k' v).
@@ -350,13 +425,13 @@ Section Once.
       eapply Forall_impl; [|exact H]. intros x Hx. apply Hx.
   Qed.
 
-  Lemma fields_once (full: list (nat * sub)) pcc ck :
+  Lemma fields_once (full: list (nat * sub)) pcc pxx ck :
     forall (fs: list (nat * val)) (fl: list field),
       (forall k x, In (k, x) fs -> assoc k full = Some (pack E stubs Mixin x)) ->
-      all_fields (wsubs_of E fs) fl = true ->
+      all_fields (wsubs_of E true fs) fl = true ->
       Forall (fun kx => good1 (snd kx)) fs ->
       let r := seqM (map (fun f => match assoc (f_name f) full with
-                                   | Some s => s (f_ty f) pcc ck
+                                   | Some s => s (f_ty f) pcc pxx ck
                                    | None => fail_ end) fl) in
       fst r = true /\
       map erase (snd r) = map erase (flat_map (fun kx => match kx with (_, x) => trav E pcc ck x end) fs).
@@ -368,23 +443,23 @@ Section Once.
       apply Nat.eqb_eq in Hname. subst k.
       inversion Hg as [|? ? Hgx Hgr]; subst.
       simpl map. rewrite (Hfull (f_name f) x (or_introl eq_refl)).
-      simpl seqM. simpl in Hgx. destruct (Hgx (f_ty f) pcc ck Hwt) as [H1 H2].
-      destruct (pack E stubs Mixin x (f_ty f) pcc ck) as [ok ta]. simpl in H1, H2. subst ok.
+      simpl seqM. simpl in Hgx. destruct (Hgx (f_ty f) pcc pxx ck Hwt) as [H1 H2].
+      destruct (pack E stubs Mixin x (f_ty f) pcc pxx ck) as [ok ta]. simpl in H1, H2. subst ok.
       rewrite seq2_ok.
       destruct (IH fl') as [H3 H4]; auto.
       { intros k0 x0 Hin. apply Hfull. right. assumption. }
       simpl. split; [assumption|]. rewrite !map_app. rewrite H2, H4. reflexivity.
   Qed.
 
-  Lemma list_once t pc k :
-    forall l, Forall good1 l -> forallb (fun x => wt E x t) l = true ->
-      let r := seqM (map (fun x => pack E stubs Mixin x t pc k) l) in
+  Lemma list_once t pc px k :
+    forall l, Forall good1 l -> forallb (fun x => wt E true x t) l = true ->
+      let r := seqM (map (fun x => pack E stubs Mixin x t pc px k) l) in
       fst r = true /\ map erase (snd r) = map erase (flat_map (trav E pc k) l).
   Proof.
     induction l as [|x r IH]; intros Hg Hw; [split; reflexivity|].
     inversion Hg; subst. simpl in Hw. apply andb_true_iff in Hw as [Hw1 Hw2].
-    simpl. destruct (H1 t pc k Hw1) as [Ha Hb].
-    destruct (pack E stubs Mixin x t pc k) as [ok ta]. simpl in Ha, Hb. subst ok.
+    simpl. destruct (H1 t pc px k Hw1) as [Ha Hb].
+    destruct (pack E stubs Mixin x t pc px k) as [ok ta]. simpl in Ha, Hb. subst ok.
     rewrite seq2_ok. destruct (IH H2 Hw2) as [Hc Hd]. simpl. split; [assumption|].
     rewrite !map_app. rewrite Hb, Hd. reflexivity.
   Qed.
@@ -392,13 +467,13 @@ Section Once.
   Lemma body_once cr i j fs kk ck pc k :
     nodupb (map fst fs) = true ->
     (c_pre (cls E cr) || (i =? j)) = true ->
-    all_fields (wsubs_of E fs) (c_fields (cls E cr)) = true ->
+    all_fields (wsubs_of E true fs) (c_fields (cls E cr)) = true ->
     Forall (fun kx => good1 (snd kx)) fs ->
     let r := body E stubs cr cr i j (subs_of E stubs Mixin fs) kk ck in
     fst r = true /\ map erase (snd r) = map erase (trav E pc k (VInst cr i j fs)).
   Proof.
     intros Hnd Hij Hall Hg. unfold body. rewrite early_fail_same.
-    destruct (fields_once (subs_of E stubs Mixin fs) (c_ctx (cls E cr)) ck fs (c_fields (cls E cr))) as [H1 H2]; auto.
+    destruct (fields_once (subs_of E stubs Mixin fs) (c_ctx (cls E cr)) (c_xf (cls E cr)) ck fs (c_fields (cls E cr))) as [H1 H2]; auto.
     { intros k0 x Hin. unfold subs_of. apply assoc_map_nodup; assumption. }
     match goal with |- context [seqM ?l] => destruct (seqM l) as [ok tf] end.
     simpl in H1, H2. subst ok.
@@ -412,30 +487,40 @@ Section Once.
       rewrite ?H3; split; reflexivity.
   Qed.
 
+  Lemma inst_once c i j fs :
+    Forall (fun kx => good1 (snd kx)) fs ->
+    forall c0 pc px k, wt E true (VInst c i j fs) (TDc c0) = true ->
+      fst (pack E stubs Mixin (VInst c i j fs) (TDc c0) pc px k) = true /\
+      map erase (snd (pack E stubs Mixin (VInst c i j fs) (TDc c0) pc px k)) = map erase (trav E pc k (VInst c i j fs)).
+  Proof.
+    intros H c0 pc px k Hw.
+    rewrite wt_TDc in Hw. unfold inst_ok in Hw.
+    apply andb_true_iff in Hw as [Hw Hall]. apply andb_true_iff in Hw as [Hw Hij].
+    apply andb_true_iff in Hw as [Hc Hnd].
+    rewrite pack_TDc. rewrite (class_ok_ctx E _ _ _ Hc), (class_ok_xf E _ _ _ Hc). unfold call_mixin.
+    rewrite call_ok. apply body_once; assumption.
+  Qed.
+
   Theorem pack_mixin_once : forall v, good1 v.
   Proof.
     induction v using val_ind'; unfold good1.
-    - induction t; intros pc k Hw.
+    - induction t; intros pc px k Hw.
       + split; reflexivity.
       + rewrite wt_TDc in Hw; discriminate.
       + rewrite wt_TList in Hw; discriminate.
       + rewrite wt_TOpt in Hw. rewrite pack_TOpt. apply IHt; assumption.
       + rewrite wt_TUnion in Hw; discriminate.
-    - induction t; intros pc k Hw.
+      + rewrite wt_TDisc, wt_TDc in Hw; discriminate.
+    - induction t; intros pc px k Hw.
       + rewrite wt_TInt in Hw; discriminate.
       + rewrite wt_TDc in Hw; discriminate.
       + rewrite wt_TList in Hw; discriminate.
       + rewrite pack_TOpt. split; reflexivity.
       + rewrite wt_TUnion in Hw; discriminate.
-    - induction t; intros pc k Hw.
+      + rewrite wt_TDisc, wt_TDc in Hw; discriminate.
+    - induction t; intros pc px k Hw.
       + rewrite wt_TInt in Hw; discriminate.
-      + rewrite wt_TDc in Hw. unfold inst_ok in Hw.
-        apply andb_true_iff in Hw as [Hw Hall]. apply andb_true_iff in Hw as [Hw Hij].
-        apply andb_true_iff in Hw as [Hc Hnd]. apply Nat.eqb_eq in Hc. subst c0.
-        rewrite pack_TDc. unfold call_mixin.
-        assert ((pc && c_ctx (cls E c) && negb (c_ctx (cls E c))) = false) as Hf
-            by (destruct pc, (c_ctx (cls E c)); reflexivity).
-        rewrite Hf. apply body_once; assumption.
+      + apply inst_once; assumption.
       + rewrite wt_TList in Hw; discriminate.
       + rewrite wt_TOpt in Hw. rewrite pack_TOpt. apply IHt; assumption.
       + rewrite wt_TUnion in Hw. apply andb_true_iff in Hw as [Hmem Hok]. unfold inst_ok in Hok.
@@ -443,26 +528,27 @@ Section Once.
         apply andb_true_iff in Hw as [_ Hnd].
         rewrite pack_TUnion.
         apply try_each_erased.
-        * intros a Ha. apply in_map_iff in Ha as [pass [Ha _]]. subst a. unfold call_mixin.
-          destruct (pass && negb (c_ctx (cls E c))); [left; reflexivity|right].
+        * intros a Ha. apply in_map_iff in Ha as [pa [Ha _]]. subst a. unfold call_mixin.
+          destruct ((fst pa && negb (c_ctx (cls E c))) || negb (xf_le (snd pa) (c_xf (cls E c)))); [left; reflexivity|right].
           apply body_once; assumption.
         * apply existsb_exists in Hmem as [c' [Hin Heq]]. apply Nat.eqb_eq in Heq. subst c'.
-          exists (call_mixin E stubs (pc && c_ctx (cls E c)) k c i j (subs_of E stubs Mixin fs)). split.
-          -- apply in_map_iff. exists (pc && c_ctx (cls E c)). split; [reflexivity|].
-             destruct (dedup_bool_in (pc && c_ctx (cls E c)) (map (fun c0 => pc && c_ctx (cls E c0)) cs) false false) as [Hd|Hd].
+          exists (call_mixin E stubs (pc && c_ctx (cls E c)) (xf_and px (c_xf (cls E c))) k c i j (subs_of E stubs Mixin fs)). split.
+          -- apply in_map_iff. exists (pc && c_ctx (cls E c), xf_and px (c_xf (cls E c))). split; [reflexivity|].
+             destruct (dedup_pf_in (pc && c_ctx (cls E c), xf_and px (c_xf (cls E c)))
+                                   (map (fun c0 => (pc && c_ctx (cls E c0), xf_and px (c_xf (cls E c0)))) cs) []) as [Hd|Hd].
              ++ apply in_map_iff. exists c. split; [reflexivity|assumption].
              ++ assumption.
-             ++ destruct (pc && c_ctx (cls E c)); discriminate.
-          -- unfold call_mixin.
-             assert ((pc && c_ctx (cls E c) && negb (c_ctx (cls E c))) = false) as Hf
-                 by (destruct pc, (c_ctx (cls E c)); reflexivity).
-             rewrite Hf. apply (body_once c i j fs _ _ pc k); assumption.
-    - induction t; intros pc k Hw.
+             ++ discriminate.
+          -- unfold call_mixin. rewrite (call_ok E).
+             apply (body_once c i j fs _ _ pc k); assumption.
+      + rewrite wt_TDisc in Hw. rewrite pack_TDisc. apply inst_once; assumption.
+    - induction t; intros pc px k Hw.
       + rewrite wt_TInt in Hw; discriminate.
       + rewrite wt_TDc in Hw; discriminate.
       + rewrite wt_TList in Hw. rewrite pack_TList. simpl trav. apply list_once; assumption.
       + rewrite wt_TOpt in Hw. rewrite pack_TOpt. apply IHt; assumption.
       + rewrite wt_TUnion in Hw; discriminate.
+      + rewrite wt_TDisc, wt_TDc in Hw; discriminate.
   Qed.
 End Once.
 
@@ -471,6 +557,15 @@ Section DeEqs.
   Variable E : env.
   Definition dsubs_of (kvs: list (nat * wire)) : list (nat * dsub) :=
     map (fun kx => match kx with (k, x) => (k, unpack E x) end) kvs.
+  Definition tag_of (w: wire) : option (option nat) := match w with WDict t _ => Some t | _ => None end.
+  Definition plain_de (w: wire) (c: nat) : D :=
+    match w with
+    | WDict _ kvs => dbody E c (dsubs_of kvs)
+    | _ => fun n => (None, if c_prede (cls E c) then [PreDe c] else [], n) end.
+  Definition call_dc_de (w: wire) (c: nat) : D :=
+    match c_disc (cls E c) with
+    | Some wf => dispatch E (tag_of w) wf (subclasses E c) (plain_de w)
+    | None => plain_de w c end.
   Lemma unpack_TInt w : unpack E w TInt = match w with WInt => dret VInt | _ => dfail end.
   Proof. destruct w; reflexivity. Qed.
   Lemma unpack_TOpt w t : unpack E w (TOpt t) = match w with WNone => dret VNone | _ => unpack E w t end.
@@ -483,11 +578,10 @@ Section DeEqs.
                           | (None, tr, n1) => (None, tr, n1) end
     | _ => dfail end.
   Proof. destruct w; reflexivity. Qed.
-  Definition call_dc_de (w: wire) (c: nat) : D :=
-    match w with
-    | WDict kvs => dbody E c (dsubs_of kvs)
-    | _ => fun n => (None, if c_prede (cls E c) then [PreDe c] else [], n) end.
   Lemma unpack_TDc w c : unpack E w (TDc c) = call_dc_de w c.
+  Proof. destruct w; reflexivity. Qed.
+  Lemma unpack_TDisc w p wf sup :
+    unpack E w (TDisc p wf sup) = dispatch E (tag_of w) wf (disc_variants E p sup) (plain_de w).
   Proof. destruct w; reflexivity. Qed.
   Lemma unpack_TUnion w cs : unpack E w (TUnion cs) = dtry (map (call_dc_de w) (dedup_nat cs [])).
   Proof. destruct w; reflexivity. Qed.
@@ -543,41 +637,83 @@ Section DeTrace.
         inversion H; subst. simpl. apply (IH Hu2 _ _ _ _ E2).
   Qed.
 
+  (* a deterministic dispatch (with a field) inherits the property from the variants' from_dict *)
+  Lemma dispatch_trav tg vs (fd: nat -> D) :
+    (forall v n r tr n', fd v n = (Some r, tr, n') -> tr = trav_de E r) ->
+    forall n r tr n', dispatch E tg true vs fd n = (Some r, tr, n') -> tr = trav_de E r.
+  Proof.
+    intros Hfd n r tr n' H. unfold dispatch in H.
+    destruct tg as [[t|]|]; try discriminate.
+    destruct (lookup_tag E vs t) as [v|]; [|discriminate].
+    apply (Hfd v n r tr n' H).
+  Qed.
+
+  Lemma plain_trav w :
+    match w with WDict _ kvs => Forall (fun kx => dgood (snd kx)) kvs | _ => True end ->
+    forall c n r tr n', plain_de E w c n = (Some r, tr, n') -> tr = trav_de E r.
+  Proof.
+    intros IH c n r tr n' H. destruct w as [| |tg kvs|l]; try discriminate.
+    simpl in H. unfold dbody in H.
+    destruct (dfields (c_fields (cls E c)) (dsubs_of E kvs) n) as [[[vs|] tf] n1] eqn:Ef; [|discriminate].
+    inversion H; subst. simpl. f_equal. f_equal.
+    eapply dfields_trace; [| |exact Ef].
+    - intros k s Ha. apply assoc_map_some in Ha as [x [Hin Hsx]]. exists x. split; [|assumption].
+      rewrite Forall_forall in IH. apply (IH (k, x) Hin).
+    - apply env_uf_fields. assumption.
+  Qed.
+
+  Lemma call_dc_trav w :
+    match w with WDict _ kvs => Forall (fun kx => dgood (snd kx)) kvs | _ => True end ->
+    forall c n r tr n', call_dc_de E w c n = (Some r, tr, n') -> tr = trav_de E r.
+  Proof.
+    intros IH c n r tr n' H. unfold call_dc_de in H.
+    pose proof (env_uf_disc E c HE) as Hd. unfold disc_det in Hd.
+    destruct (c_disc (cls E c)) as [[|]|]; try discriminate.
+    - eapply dispatch_trav; [|exact H]. intros v. apply plain_trav. exact IH.
+    - eapply plain_trav; eauto.
+  Qed.
+
+  Ltac de_case IH :=
+    match goal with
+    | H: unpack _ _ (TDc _) _ = _ |- _ => rewrite unpack_TDc in H; eapply call_dc_trav; [|exact H]; exact IH
+    | H: unpack _ _ (TDisc _ ?wf _) _ = _, Hu: union_free (TDisc _ ?wf _) = true |- _ =>
+        rewrite unpack_TDisc in H; simpl in Hu; rewrite Hu in H;
+        eapply dispatch_trav; [|exact H]; intros v0; apply plain_trav; exact IH
+    end.
+
   Theorem unpack_trav : forall w, dgood w.
   Proof.
-    induction w as [| | kvs IHk | l IHl] using wire_ind'; unfold dgood.
+    induction w as [| |tg kvs IHk | l IHl] using wire_ind'; unfold dgood.
     - induction t; intros n r tr n' Hu H.
       + inversion H. reflexivity.
-      + rewrite unpack_TDc in H. discriminate.
+      + de_case I.
       + rewrite unpack_TList in H. discriminate.
       + rewrite unpack_TOpt in H. apply (IHt n r tr n'); assumption.
       + discriminate.
+      + de_case I.
     - induction t; intros n r tr n' Hu H.
       + rewrite unpack_TInt in H. discriminate.
-      + rewrite unpack_TDc in H. discriminate.
+      + de_case I.
       + rewrite unpack_TList in H. discriminate.
       + rewrite unpack_TOpt in H. inversion H. reflexivity.
       + discriminate.
+      + de_case I.
     - induction t; intros n r tr n' Hu H.
       + rewrite unpack_TInt in H. discriminate.
-      + rewrite unpack_TDc in H. simpl in H. unfold dbody in H.
-        destruct (dfields (c_fields (cls E c)) (dsubs_of E kvs) n) as [[[vs|] tf] n1] eqn:Ef; [|discriminate].
-        inversion H; subst. simpl. f_equal. f_equal.
-        eapply dfields_trace; [| |exact Ef].
-        * intros k s Ha. apply assoc_map_some in Ha as [x [Hin Hsx]]. exists x. split; [|assumption].
-          rewrite Forall_forall in IHk. apply (IHk (k, x) Hin).
-        * apply env_fields_forall with (p := union_free). assumption.
+      + de_case IHk.
       + rewrite unpack_TList in H. discriminate.
       + rewrite unpack_TOpt in H. apply (IHt n r tr n'); assumption.
       + discriminate.
+      + de_case IHk.
     - induction t; intros n r tr n' Hu H.
       + rewrite unpack_TInt in H. discriminate.
-      + rewrite unpack_TDc in H. discriminate.
+      + de_case I.
       + rewrite unpack_TList in H.
         destruct (dseq (map (fun x => unpack E x t) l) n) as [[[vs|] tl] n1] eqn:El; [|discriminate].
         inversion H; subst. simpl. exact (dseq_trace t l IHl Hu n vs tr n' El).
       + rewrite unpack_TOpt in H. apply (IHt n r tr n'); assumption.
       + discriminate.
+      + de_case I.
   Qed.
 End DeTrace.
 
@@ -585,26 +721,26 @@ End DeTrace.
 (* D8: BasicEncoder(Union[A, B]).encode(B(x=5)):  A = class 0, B = class 1, both with all hooks,
    disjoint field names.  B's __pre_serialize__ runs twice. *)
 Definition E_d8 : env :=
-  [ Build_cinfo [Build_field 0 TInt false] true true true true false;
-    Build_cinfo [Build_field 1 TInt false] true true true true false ].
+  [ mk_cinfo [Build_field 0 TInt false] true true true true false;
+    mk_cinfo [Build_field 1 TInt false] true true true true false ].
 Definition v_d8 : val := VInst 1 7 7 [(1, VInt)].
 
 Lemma d8_witness :
-  wt E_d8 v_d8 (TUnion [0; 1]) = true /\
-  pack E_d8 true Codec v_d8 (TUnion [0; 1]) false CNone = (true, [Pre 1 7 CAbsent; Pre 1 7 CAbsent; Post 1 7 CAbsent]) /\
+  wt E_d8 false v_d8 (TUnion [0; 1]) = true /\
+  pack E_d8 true Codec v_d8 (TUnion [0; 1]) false xf_none CNone = (true, [Pre 1 7 CAbsent; Pre 1 7 CAbsent; Post 1 7 CAbsent]) /\
   trav E_d8 false CNone v_d8 = [Pre 1 7 CAbsent; Post 1 7 CAbsent].
 Proof. vm_compute. repeat split. Qed.
 
 (* D8b: Outer(u: Union[In2, In]).to_dict(context=tok); Outer = 2 and In = 1 opted in, In2 = 0 did not. *)
 Definition E_d8b : env :=
-  [ Build_cinfo [Build_field 0 TInt false] true true false false false;
-    Build_cinfo [Build_field 1 TInt false] true true false false true;
-    Build_cinfo [Build_field 2 (TUnion [0; 1]) false] true true false false true ].
+  [ mk_cinfo [Build_field 0 TInt false] true true false false false;
+    mk_cinfo [Build_field 1 TInt false] true true false false true;
+    mk_cinfo [Build_field 2 (TUnion [0; 1]) false] true true false false true ].
 Definition v_d8b : val := VInst 2 1 1 [(2, VInst 1 2 2 [(1, VInt)])].
 
 Lemma d8b_witness :
-  wt E_d8b v_d8b (TDc 2) = true /\
-  pack E_d8b true Mixin v_d8b (TDc 2) true CTok
+  wt E_d8b true v_d8b (TDc 2) = true /\
+  pack E_d8b true Mixin v_d8b (TDc 2) true xf_none CTok
   = (true, [Pre 2 1 CTok; Pre 1 2 CNone; Post 1 2 CNone; Post 2 1 CTok]) /\
   trav E_d8b true CTok v_d8b = [Pre 2 1 CTok; Pre 1 2 CTok; Post 1 2 CTok; Post 2 1 CTok].
 Proof. vm_compute. repeat split. Qed.
@@ -618,55 +754,55 @@ Qed.
 (* ---------------------------------------------------------------- statements at full strength and what holds of them *)
 (* every well-typed value, both paths: the trace is the pre/post-order traversal *)
 Definition trace_full : Prop :=
-  forall E stubs m v t pc k, wt E v t = true -> (m = Codec -> k = CNone) ->
-    pack E stubs m v t pc k = (true, trav E pc k v).
+  forall E stubs m v t pc px k, wt E (is_mixin m) v t = true -> (m = Codec -> k = CNone) ->
+    pack E stubs m v t pc px k = (true, trav E pc k v).
 
 Theorem trace_partial :
-  forall E stubs m v t pc k,
-    env_union_free E = true -> union_free t = true -> wt E v t = true -> (m = Codec -> k = CNone) ->
-    pack E stubs m v t pc k = (true, trav E pc k v).
-Proof. intros E stubs m v t pc k HE Hu Hw Hk. apply (pack_trav E stubs HE m v t pc k Hu Hw Hk). Qed.
+  forall E stubs m v t pc px k,
+    env_union_free E = true -> union_free t = true -> wt E (is_mixin m) v t = true -> (m = Codec -> k = CNone) ->
+    pack E stubs m v t pc px k = (true, trav E pc k v).
+Proof. intros E stubs m v t pc px k HE Hu Hw Hk. apply (pack_trav E stubs HE m v t pc px k Hu Hw Hk). Qed.
 
 Theorem trace_refuted : ~ trace_full.
 Proof.
   intros H. destruct d8_witness as [Hw [Hp Ht]].
-  specialize (H E_d8 true Codec v_d8 (TUnion [0; 1]) false CNone Hw (fun _ => eq_refl)).
+  specialize (H E_d8 true Codec v_d8 (TUnion [0; 1]) false xf_none CNone Hw (fun _ => eq_refl)).
   rewrite Hp, Ht in H. discriminate.
 Qed.
 
 (* D8 in the form of the property text: a pre hook that runs twice for one instance *)
 Theorem codec_union_refuted :
-  exists E v t, wt E v t = true /\
+  exists E v t, wt E false v t = true /\
     count_occ (list_eq_dec Nat.eq_dec) (map (fun e => match e with Pre c i _ => [c; i] | _ => [] end)
-                                            (snd (pack E true Codec v t false CNone))) [1; 7] = 2.
+                                            (snd (pack E true Codec v t false xf_none CNone))) [1; 7] = 2.
 Proof. exists E_d8, v_d8, (TUnion [0; 1]). split; vm_compute; reflexivity. Qed.
 
 Theorem mixin_once :
-  forall E stubs v t pc k, wt E v t = true ->
-    fst (pack E stubs Mixin v t pc k) = true /\
-    map erase (snd (pack E stubs Mixin v t pc k)) = map erase (trav E pc k v).
+  forall E stubs v t pc px k, wt E true v t = true ->
+    fst (pack E stubs Mixin v t pc px k) = true /\
+    map erase (snd (pack E stubs Mixin v t pc px k)) = map erase (trav E pc k v).
 Proof. intros. apply pack_mixin_once. assumption. Qed.
 
 Definition context_full : Prop :=
-  forall E stubs v t k c i j, wt E v t = true -> onpath E true v c i j ->
-    (c_pre (cls E c) = true -> In (Pre c i k) (snd (pack E stubs Mixin v t true k))) /\
-    (c_post (cls E c) = true -> In (Post c j k) (snd (pack E stubs Mixin v t true k))).
+  forall E stubs v t px k c i j, wt E true v t = true -> onpath E true v c i j ->
+    (c_pre (cls E c) = true -> In (Pre c i k) (snd (pack E stubs Mixin v t true px k))) /\
+    (c_post (cls E c) = true -> In (Post c j k) (snd (pack E stubs Mixin v t true px k))).
 
 Theorem context_partial :
-  forall E stubs v t k c i j,
-    env_union_free E = true -> union_free t = true -> wt E v t = true -> onpath E true v c i j ->
-    (c_pre (cls E c) = true -> In (Pre c i k) (snd (pack E stubs Mixin v t true k))) /\
-    (c_post (cls E c) = true -> In (Post c j k) (snd (pack E stubs Mixin v t true k))).
+  forall E stubs v t px k c i j,
+    env_union_free E = true -> union_free t = true -> wt E true v t = true -> onpath E true v c i j ->
+    (c_pre (cls E c) = true -> In (Pre c i k) (snd (pack E stubs Mixin v t true px k))) /\
+    (c_post (cls E c) = true -> In (Post c j k) (snd (pack E stubs Mixin v t true px k))).
 Proof.
-  intros E stubs v t k c i j HE Hu Hw Hp.
-  rewrite (pack_trav E stubs HE Mixin v t true k Hu Hw) by (intros Hm; discriminate).
+  intros E stubs v t px k c i j HE Hu Hw Hp.
+  rewrite (pack_trav E stubs HE Mixin v t true px k Hu Hw) by (intros Hm; discriminate).
   simpl snd. apply (ctx_reaches E k v true c i j Hp eq_refl).
 Qed.
 
 Theorem union_context_refuted : ~ context_full.
 Proof.
   intros H. destruct d8b_witness as [Hw [Hp _]].
-  destruct (H E_d8b true v_d8b (TDc 2) CTok 1 2 2 Hw d8b_onpath) as [H1 _].
+  destruct (H E_d8b true v_d8b (TDc 2) xf_none CTok 1 2 2 Hw d8b_onpath) as [H1 _].
   rewrite Hp in H1. simpl in H1. specialize (H1 eq_refl).
   repeat (destruct H1 as [H1|H1]; [discriminate|]). contradiction.
 Qed.
@@ -676,3 +812,87 @@ Theorem de_trace_partial :
     env_union_free E = true -> union_free t = true ->
     unpack E w t n = (Some r, tr, n') -> tr = trav_de E r.
 Proof. intros E w t n r tr n' HE Hu H. apply (unpack_trav E HE w t n r tr n' Hu H). Qed.
+
+(* ---------------------------------------------------------------- discriminator dispatch *)
+(* Decoding through a base class whose Config carries a discriminator with a field is decoding with the
+   from_dict of the variant registered for the tag: same result, same identities, same events.  In
+   particular the base's own hooks are not run a second time around the dispatch. *)
+Theorem disc_config_dispatch E c t v kvs n :
+  c_disc (cls E c) = Some true -> lookup_tag E (subclasses E c) t = Some v -> c_disc (cls E v) = None ->
+  unpack E (WDict (Some t) kvs) (TDc c) n = unpack E (WDict (Some t) kvs) (TDc v) n.
+Proof.
+  intros Hc Hl Hv. rewrite !unpack_TDc. unfold call_dc_de. rewrite Hc, Hv.
+  unfold dispatch, tag_of. rewrite Hl. reflexivity.
+Qed.
+
+Theorem disc_annotated_dispatch E p sup t v kvs n :
+  lookup_tag E (disc_variants E p sup) t = Some v -> c_disc (cls E v) = None ->
+  unpack E (WDict (Some t) kvs) (TDisc p true sup) n = unpack E (WDict (Some t) kvs) (TDc v) n.
+Proof.
+  intros Hl Hv. rewrite unpack_TDisc, unpack_TDc. unfold call_dc_de. rewrite Hv.
+  unfold dispatch, tag_of. rewrite Hl. reflexivity.
+Qed.
+
+(* no tag / unknown tag: nothing runs *)
+Theorem disc_no_variant E c kvs n :
+  c_disc (cls E c) = Some true ->
+  unpack E (WDict None kvs) (TDc c) n = (None, [], n) /\
+  (forall t, lookup_tag E (subclasses E c) t = None -> unpack E (WDict (Some t) kvs) (TDc c) n = (None, [], n)).
+Proof.
+  intros Hc. split; [|intros t Hl]; rewrite unpack_TDc; unfold call_dc_de; rewrite Hc; unfold dispatch, tag_of.
+  - reflexivity.
+  - rewrite Hl. reflexivity.
+Qed.
+
+(* codec path, an instance of a subclass where the parent is declared (known finding
+   C19/codec-subclass-static-dispatch): H(a: A), A without hooks, A2(A) with hooks *)
+Definition E_sub : env :=
+  [ mk_cinfo [Build_field 0 TInt false] false false false false false;
+    mk_cinfo_h [Build_field 0 TInt false; Build_field 1 TInt false] true true false false false (Some 0) None None;
+    mk_cinfo [Build_field 2 (TDc 0) false] false false false false false ].
+Definition v_sub : val := VInst 2 1 1 [(2, VInst 1 2 2 [(0, VInt); (1, VInt)])].
+Lemma sub_witness :
+  wt E_sub true v_sub (TDc 2) = true /\
+  pack E_sub true Codec v_sub (TDc 2) false xf_none CNone = (true, []) /\
+  pack E_sub true Mixin v_sub (TDc 2) false xf_none CNone = (true, [Pre 1 2 CAbsent; Post 1 2 CAbsent]) /\
+  trav E_sub false CNone v_sub = [Pre 1 2 CAbsent; Post 1 2 CAbsent].
+Proof. vm_compute. repeat split. Qed.
+
+Definition trace_subclass_full : Prop :=
+  forall E stubs m v t pc px k, wt E true v t = true -> union_free t = true -> env_union_free E = true ->
+    (m = Codec -> k = CNone) -> pack E stubs m v t pc px k = (true, trav E pc k v).
+Theorem codec_subclass_refuted : ~ trace_subclass_full.
+Proof.
+  intros H. destruct sub_witness as [Hw [Hp [_ Ht]]].
+  specialize (H E_sub true Codec v_sub (TDc 2) false xf_none CNone Hw eq_refl eq_refl (fun _ => eq_refl)).
+  rewrite Hp, Ht in H. discriminate.
+Qed.
+
+(* mixin path, a field declared with Base (not opted in) holding an instance of Sub(Base) (opted in) inside an
+   opted-in holder (known finding C19/subclass-declared-class-flags): the keyword list is computed from the
+   declared class, Sub's hooks see context=None although every class on the path of *instances* opted in *)
+Definition E_subctx : env :=
+  [ mk_cinfo [Build_field 0 TInt false] false false false false false;
+    mk_cinfo_h [Build_field 0 TInt false] true true false false true (Some 0) None None;
+    mk_cinfo [Build_field 1 (TDc 0) false] true true false false true ].
+Definition v_subctx : val := VInst 2 1 1 [(1, VInst 1 2 2 [(0, VInt)])].
+Lemma subctx_witness :
+  is_sub E_subctx 1 0 = true /\
+  pack E_subctx true Mixin v_subctx (TDc 2) true xf_none CTok = (true, [Pre 2 1 CTok; Pre 1 2 CNone; Post 1 2 CNone; Post 2 1 CTok]) /\
+  trav E_subctx true CTok v_subctx = [Pre 2 1 CTok; Pre 1 2 CTok; Post 1 2 CTok; Post 2 1 CTok].
+Proof. vm_compute. repeat split. Qed.
+
+(* the context statement over all structurally typed values (subclass instances admitted whatever their options) *)
+Definition context_subclass_full : Prop :=
+  forall E stubs v t px k c i j, env_union_free E = true -> union_free t = true -> onpath E true v c i j ->
+    fst (pack E stubs Mixin v t true px k) = true ->
+    (c_pre (cls E c) = true -> In (Pre c i k) (snd (pack E stubs Mixin v t true px k))).
+Theorem subclass_context_refuted : ~ context_subclass_full.
+Proof.
+  intros H. destruct subctx_witness as [_ [Hp _]].
+  assert (onpath E_subctx true v_subctx 1 2 2) as Hon.
+  { eapply onpath_field with (n := 1); [reflexivity|left; reflexivity|]. apply onpath_here. reflexivity. }
+  specialize (H E_subctx true v_subctx (TDc 2) xf_none CTok 1 2 2 eq_refl eq_refl Hon).
+  rewrite Hp in H. simpl in H. specialize (H eq_refl eq_refl).
+  repeat (destruct H as [H|H]; [discriminate|]). contradiction.
+Qed.
